@@ -35,13 +35,15 @@ type Op struct {
 }
 
 type queue struct {
-	data    []byte
-	cap     int  // 0 = unbounded
-	wclosed bool // writer finished: EOF after data
-	rclosed bool // reader gone: writes are lost / fail
-	rstSeen bool
-	total   int // bytes ever written
-	segs    int
+	data          []byte
+	cap           int  // 0 = unbounded
+	wclosed       bool // writer finished: EOF after data
+	rclosed       bool // reader gone: writes are lost / fail
+	rstSeen       bool
+	resetReported bool // the pending socket error has been returned once (later reads see EOF)
+	reset         bool // the writer of this queue aborted the connection (closed with unread data): reader gets ECONNRESET after the queued bytes
+	total         int  // bytes ever written
+	segs          int
 }
 
 // Conn is one end of a simulated TCP connection.
@@ -128,7 +130,7 @@ func (c *Conn) Read(p []byte) (int, error) {
 		return 0, nil
 	}
 	vrt.Block("net.Read "+c.Name, func() bool {
-		return len(c.in.data) > 0 || c.in.wclosed || c.closed || expired(c.rdl)
+		return len(c.in.data) > 0 || c.in.wclosed || c.in.reset || c.closed || expired(c.rdl)
 	})
 	if c.closed {
 		err := &net.OpError{Op: "read", Net: "tcp", Err: net.ErrClosed}
@@ -149,7 +151,13 @@ func (c *Conn) Read(p []byte) (int, error) {
 		c.logOp("read", n, nil)
 		return n, nil
 	}
-	if c.in.wclosed {
+	if c.in.reset && !c.in.resetReported {
+		c.in.resetReported = true
+		err := &net.OpError{Op: "read", Net: "tcp", Err: syscall.ECONNRESET}
+		c.logOp("read", 0, err)
+		return 0, err
+	}
+	if c.in.wclosed || c.in.reset {
 		c.logOp("read", 0, io.EOF)
 		return 0, io.EOF
 	}
@@ -162,8 +170,21 @@ func (c *Conn) Write(p []byte) (int, error) {
 	vrt.Block("net.Write "+c.Name, func() bool {
 		return c.closed || c.out.rclosed || c.out.wclosed || c.out.cap == 0 || len(c.out.data) < c.out.cap || expired(c.wdl)
 	})
-	if c.closed || c.out.wclosed {
+	if c.closed {
 		err := &net.OpError{Op: "write", Net: "tcp", Err: net.ErrClosed}
+		c.logOp("write", 0, err)
+		return 0, err
+	}
+	if c.out.wclosed {
+		// write after our own CloseWrite
+		err := &net.OpError{Op: "write", Net: "tcp", Err: syscall.EPIPE}
+		c.logOp("write", 0, err)
+		return 0, err
+	}
+	if c.in.reset || c.in.aborted {
+		// the peer aborted the connection (RST already received): writes fail at once
+		c.in.resetReported = true
+		err := &net.OpError{Op: "write", Net: "tcp", Err: syscall.EPIPE}
 		c.logOp("write", 0, err)
 		return 0, err
 	}
@@ -208,9 +229,18 @@ func (c *Conn) Close() error {
 		c.logOp("close-again", 0, err)
 		return err
 	}
+	finSent := c.out.wclosed
 	c.closed = true
 	c.out.wclosed = true
 	c.in.rclosed = true
+	if len(c.in.data) > 0 {
+		// closing with unread data makes TCP send RST instead of FIN (if a FIN already went out through
+		// CloseWrite the peer still reads EOF first, but its writes fail at once)
+		c.out.aborted = true
+		if !finSent {
+			c.out.reset = true
+		}
+	}
 	vrt.Bump()
 	c.logOp("close", 0, nil)
 	return nil
@@ -221,6 +251,12 @@ func (c *Conn) CloseWrite() error {
 	vrt.Point("net.CloseWrite " + c.Name)
 	if c.closed {
 		return &net.OpError{Op: "close", Net: "tcp", Err: net.ErrClosed}
+	}
+	if (c.out.wclosed && c.in.wclosed) || c.out.rstSeen || c.in.reset || c.in.aborted {
+		// both directions already shut down, or the peer has reset the connection: shutdown(2) fails
+		err := &net.OpError{Op: "close", Net: "tcp", Err: syscall.ENOTCONN}
+		c.logOp("closewrite", 0, err)
+		return err
 	}
 	c.out.wclosed = true
 	vrt.Bump()
